@@ -54,15 +54,19 @@ def oracle(case: Case, out: str):
             if "#STATE" in g:
                 return ("stack-or-invalidated-left", f"request {c.reqs[i]}: evaluation stack or invalidated set not empty after the request")
         from . import c02
-        c_plain = rs.SysCase(c.nP, c.nG, c.mem, c.msl, c.vars, c.inputs, c.reqs)
+        c_plain = rs.derive(c, config={})
         v = c02.oracle(Case(line=rs.to_line(c_plain), payload=pickle.dumps(c_plain).hex(), tags=("kind=spiral",), claimed=True), out)
         if v is not None and not v[0].startswith("retained-derived-from-spiral-default"):
             return v
         return None
     want = c01.expected_results(c)                       # meaning under the faults armed at that moment
-    c_nofault = rs.SysCase(c.nP, c.nG, c.mem, c.msl, c.vars, c.inputs, [r for r in c.reqs if r[0] in ("calc", "add")])
+    c_nofault = rs.derive(c, reqs=[r for r in c.reqs if r[0] in ("calc", "add")], config={})
     clean = iter(c01.expected_results(c_nofault))        # meaning with no fault armed
     for i, (g, w) in enumerate(zip(got, want)):
+        if "#STATE" in g:
+            return ("stack-or-invalidated-left", f"request {c.reqs[i]}: evaluation stack or invalidated set not empty after the request")
+        if c.reqs[i][0] == "badp" and g != "ERR":
+            return ("unparsable-period-accepted", f"request {c.reqs[i]} with a period text that cannot be parsed returned {g}")
         if c.reqs[i][0] not in ("calc", "add"):
             continue
         w0 = next(clean)
@@ -128,9 +132,12 @@ def generate(rng: random.Random, tier: str):
                 reqs.append(("disarm", fid))
                 reqs += rng.sample(base, min(len(base), rng.randint(1, 2)))
         reqs += base
+        if rng.random() < 0.3:      # requests whose period text cannot be parsed: they fail before they start
+            for _ in range(rng.randint(1, 2)):
+                reqs.insert(rng.randrange(len(reqs) + 1), ("badp", rng.randrange(len(c.vars))))
         c.reqs = reqs
         for trace in (False, True):
-            c2 = rs.SysCase(c.nP, c.nG, c.mem, c.msl, c.vars, c.inputs, c.reqs, {"trace": trace})
+            c2 = rs.derive(c, config={"trace": trace})
             out.append(_case(c2, (kind, f"kind={kind}", f"trace={trace}", f"faults={len(faults)}")))
     return out
 
@@ -142,7 +149,7 @@ def corpus():
     v2 = rs.Var(vtype="float", unit="month", dflt=0, formulas=[(1, ("o2", 0, ("v", 1, "same", False), ("v", 0, "this_year", False)))])
     c = rs.SysCase(1, 1, [0], 1, [v0, v1, v2], [(0, M[1], [10])],
                    [("arm", 0), ("calc", 1, M[1]), ("calc", 0, M[2]), ("disarm", 0), ("calc", 1, M[1]), ("calc", 2, M[1]), ("calc", 0, M[1])])
-    return [_case(rs.SysCase(c.nP, c.nG, c.mem, c.msl, c.vars, c.inputs, c.reqs, {"trace": t}), ("corpus",)) for t in (False, True)]
+    return [_case(rs.derive(c, config={"trace": t}), ("corpus",)) for t in (False, True)]
 
 
 PROP = Prop(
